@@ -61,6 +61,11 @@ type ProviderCase struct {
 	Host       string   `json:"host"`        // Host header of every request of the case
 	Forwarded  []string `json:"forwarded,omitempty"`
 
+	// More are further (Host, Forwarded) combinations sent to the SAME provider instance after the first one, in
+	// this order; each gets its own judgement "document names the issuer of its request, endpoints below it are
+	// routed, tokens carry it" (the first combination gets the full judgement).
+	More []View `json:"more,omitempty"`
+
 	Endpoints map[string]EPShape `json:"endpoints,omitempty"`
 
 	SignKey    string `json:"sign_key"`
@@ -69,6 +74,16 @@ type ProviderCase struct {
 	JWTAT      bool   `json:"jwt_at"`      // its access tokens are JWTs (carry iss)
 	PKCEClient string `json:"pkce_client"` // pub | web
 	NearMiss   string `json:"near_miss"`   // how the issuer asked from client.Discover is bent for the negative probe
+}
+
+// View is the pair of request headers an issuer can be derived from.
+type View struct {
+	Host      string   `json:"host"`
+	Forwarded []string `json:"forwarded,omitempty"`
+}
+
+func (v View) same(o View) bool {
+	return v.Host == o.Host && strings.Join(v.Forwarded, "\x00") == strings.Join(o.Forwarded, "\x00")
 }
 
 type IssuerCase struct {
@@ -110,6 +125,8 @@ var (
 		{"host=a.example.com, host=b.example.com"},
 		{"for=192.0.2.7", "host=second.example.com"},
 		{"by=\"unterminated;host=x.example.com"},
+		{"host=fwd2.example.net"},
+		{"for=198.51.100.7;host=fwd3.example.org;proto=https"},
 		{";;=;"},
 	}
 	signKeys = [][2]string{{"rsa1", "RS256"}, {"rsa1", "RS256"}, {"p256a", "ES256"}, {"ed1", "EdDSA"}}
@@ -146,6 +163,7 @@ func genProvider(t *rapid.T) *ProviderCase {
 	}
 	pc.Host = rapid.SampledFrom(hostPool).Draw(t, "host")
 	pc.Forwarded = rapid.SampledFrom(forwardedSet).Draw(t, "forwarded")
+	pc.More = genViews(t, pc)
 	if rapid.IntRange(0, 2).Draw(t, "custom_endpoints") > 0 {
 		pc.Endpoints = map[string]EPShape{}
 		for _, name := range vkit.EndpointNames {
@@ -184,6 +202,52 @@ func genProvider(t *rapid.T) *ProviderCase {
 	pc.PKCEClient = rapid.SampledFrom([]string{"pub", "web"}).Draw(t, "pkce_client")
 	pc.NearMiss = rapid.SampledFrom(nearKinds).Draw(t, "near_miss")
 	return pc
+}
+
+// genViews: for the dynamic issuer strategies 1-2 further, pairwise different (Host, Forwarded) combinations
+// (same Host / other Forwarded, other Host / same Forwarded, both different) and finally the first one again;
+// for a static issuer optionally one other combination and then the first again (idempotence).
+func genViews(t *rapid.T, pc *ProviderCase) []View {
+	first := View{Host: pc.Host, Forwarded: pc.Forwarded}
+	views := []View{first}
+	otherHost := func(cur string, label string) string {
+		h := rapid.SampledFrom(hostPool).Draw(t, label)
+		for i := 0; h == cur; i++ {
+			h = hostPool[i%len(hostPool)]
+		}
+		return h
+	}
+	otherFwd := func(cur []string, label string) []string {
+		f := rapid.SampledFrom(forwardedSet).Draw(t, label)
+		for i := 0; (View{Forwarded: f}).same(View{Forwarded: cur}); i++ {
+			f = forwardedSet[i%len(forwardedSet)]
+		}
+		return f
+	}
+	n := rapid.IntRange(1, 2).Draw(t, "more_views")
+	if pc.IssuerMode == "static" {
+		n = rapid.IntRange(0, 1).Draw(t, "more_views_static")
+	}
+	for i := 0; i < n; i++ {
+		prev := views[len(views)-1]
+		var v View
+		switch rapid.SampledFrom([]string{"same-host-other-forwarded", "same-host-other-forwarded", "other-host-same-forwarded", "both-other"}).Draw(t, fmt.Sprintf("view_rel_%d", i)) {
+		case "same-host-other-forwarded":
+			v = View{Host: prev.Host, Forwarded: otherFwd(prev.Forwarded, fmt.Sprintf("view_fwd_%d", i))}
+		case "other-host-same-forwarded":
+			v = View{Host: otherHost(prev.Host, fmt.Sprintf("view_host_%d", i)), Forwarded: prev.Forwarded}
+		default:
+			v = View{Host: otherHost(prev.Host, fmt.Sprintf("view_host_%d", i)), Forwarded: otherFwd(prev.Forwarded, fmt.Sprintf("view_fwd_%d", i))}
+		}
+		dup := false
+		for _, o := range views {
+			dup = dup || o.same(v)
+		}
+		if !dup {
+			views = append(views, v)
+		}
+	}
+	return append(views[1:], first)
 }
 
 func genIssuer(t *rapid.T) *IssuerCase {
@@ -437,7 +501,28 @@ func (pc *ProviderCase) key() string {
 	}
 	return "P|" + pc.Router + "|" + b(pc.S256) + b(pc.Post) + b(pc.PKJWT) + b(pc.Refresh) + b(pc.ReqObj) + b(pc.Insecure) + "|" +
 		b(pc.Caps.CC) + b(pc.Caps.TE) + b(pc.Caps.Device) + b(pc.Caps.Extras) + "|" + pc.IssuerMode + "|" + pc.Issuer + "|" + pc.Host + "|" +
-		strings.Join(pc.Forwarded, ",") + "|" + eps + "|" + pc.SignAlg + "|" + pc.WebAuth + "|" + pc.PKCEClient
+		strings.Join(pc.Forwarded, ",") + "|" + eps + "|" + pc.SignAlg + "|" + pc.WebAuth + "|" + pc.PKCEClient + "|" + strings.Join(pc.viewRelations(), ",")
+}
+
+// viewRelations classifies each further view against its predecessor.
+func (pc *ProviderCase) viewRelations() []string {
+	prev := View{Host: pc.Host, Forwarded: pc.Forwarded}
+	var out []string
+	for _, v := range pc.More {
+		sh, sf := v.Host == prev.Host, (View{Forwarded: v.Forwarded}).same(View{Forwarded: prev.Forwarded})
+		switch {
+		case sh && sf:
+			out = append(out, "same")
+		case sh:
+			out = append(out, "same-host-other-forwarded")
+		case sf:
+			out = append(out, "other-host-same-forwarded")
+		default:
+			out = append(out, "both-other")
+		}
+		prev = v
+	}
+	return out
 }
 
 // outcome classifies the answer of the token endpoint.
@@ -491,25 +576,75 @@ func runProvider(pc *ProviderCase, res *vkit.Result) {
 		res.Fail("C19:construct-valid-config", "NewProvider refused a valid configuration (issuer %q mode %s insecure=%v): %v", pc.Issuer, pc.IssuerMode, pc.Insecure, err)
 		return
 	}
-	a := &ua{sut: sut, host: pc.Host, fwd: pc.Forwarded}
+	basePaths := map[string]string{}
+	for k, v := range sut.Paths {
+		basePaths[k] = v
+	}
+	views := append([]View{{Host: pc.Host, Forwarded: pc.Forwarded}}, pc.More...)
+	for _, rel := range pc.viewRelations() {
+		res.Label("view:" + rel + ":" + pc.IssuerMode)
+	}
+	var summaries []map[string]any
+	for i, view := range views {
+		sut.Paths = map[string]string{}
+		for k, v := range basePaths {
+			sut.Paths[k] = v
+		}
+		vinfo := map[string]any{}
+		if i == 0 {
+			vinfo = info
+		}
+		sum := judgeView(pc, res, sut, st, view, i, vinfo, [3]*vkit.ClientSpec{web, mach, pub})
+		summaries = append(summaries, sum)
+		// identical requests to one provider are answered with the same statements
+		for j := 0; j < i; j++ {
+			if views[j].same(view) && sum != nil && summaries[j] != nil {
+				a, _ := json.Marshal(summaries[j])
+				bb, _ := json.Marshal(sum)
+				if string(a) != string(bb) {
+					res.Fail("C19:discovery-differs-for-identical-request", "request %d and request %d (Host %q, Forwarded %q) to the same provider got different documents: %s vs %s", j, i, view.Host, view.Forwarded, a, bb)
+				} else {
+					res.Label("view:repeat-identical")
+				}
+				break
+			}
+		}
+	}
+	var issuers []string
+	for _, s := range summaries {
+		if s != nil {
+			issuers = append(issuers, fmt.Sprint(s["issuer"]))
+		}
+	}
+	info["issuers_by_view"] = issuers
+}
+
+// judgeView fetches the document with the headers of view and judges it against the same handler with the same
+// headers. idx 0 gets the full judgement (grants, PKCE, request object, client.Discover); the others: document,
+// endpoints below the issuer, iss of freshly issued tokens. Returns the statements of the document the property is about.
+func judgeView(pc *ProviderCase, res *vkit.Result, sut *vkit.SUT, st *vkit.Store, view View, idx int, info map[string]any, cl [3]*vkit.ClientSpec) map[string]any {
+	web, mach, pub := cl[0], cl[1], cl[2]
+	full := idx == 0
+	a := &ua{sut: sut, host: view.Host, fwd: view.Forwarded}
 
 	// 1. the document, fetched the way an RP does
 	d := a.get("/.well-known/openid-configuration", nil)
 	if d.Panic != nil {
 		res.Fail("C19:panic@"+d.PanicFrame(), "discovery panicked: %v", d.Panic)
-		return
+		return nil
 	}
 	doc := d.JSON()
 	if !d.Success() || doc == nil {
-		res.Fail("C19:discovery-unavailable", "GET /.well-known/openid-configuration: %s", d.Describe())
-		return
+		res.Fail("C19:discovery-unavailable", "GET /.well-known/openid-configuration (request %d): %s", idx, d.Describe())
+		return nil
 	}
 	docIssuer, _ := doc["issuer"].(string)
 	info["issuer"] = docIssuer
 	if docIssuer == "" {
 		res.Fail("C19:discovery-without-issuer", "discovery document has no issuer: %s", d.Describe())
-		return
+		return nil
 	}
+	summary := map[string]any{"issuer": docIssuer, "grants": doc["grant_types_supported"], "pkce": doc["code_challenge_methods_supported"], "reqobj": doc["request_parameter_supported"]}
 
 	// 2. every advertised endpoint below the issuer is a route of the handler
 	broken := map[string]bool{}
@@ -537,6 +672,7 @@ func runProvider(pc *ProviderCase, res *vkit.Result) {
 			name = k
 		}
 		advertisedEP[name] = adv
+		summary[k] = adv
 		rel, under := underIssuer(adv, docIssuer)
 		if !under {
 			res.Label("ep:foreign-url")
@@ -588,11 +724,39 @@ func runProvider(pc *ProviderCase, res *vkit.Result) {
 		return a.authFlow(q, "u1")
 	}
 
+	if !full {
+		// further views: fresh tokens through the advertised addresses (client with Basic authentication, so that
+		// obtaining them does not depend on the issuer the document names)
+		res.Label("view:further-judged")
+		if tokenAvail {
+			if authAvail {
+				f := codeFlow(mach, redirectWeb, nil)
+				r := a.token(vkit.CodeExchangeForm(f.params.Get("code"), redirectWeb, ""), machBasic)
+				if r.Panic != nil {
+					res.Fail("C19:panic@"+r.PanicFrame(), "token endpoint panicked: %v", r.Panic)
+				}
+				keep("code", r)
+			}
+			r := a.token(url.Values{"grant_type": {vkit.GCC}, "scope": {"openid"}}, machBasic)
+			if r.Panic != nil {
+				res.Fail("C19:panic@"+r.PanicFrame(), "token endpoint panicked: %v", r.Panic)
+			}
+			keep("cc", r)
+		} else if authAvail {
+			f := a.authFlow(vkit.AuthParams(web, redirectWeb, "id_token", "openid", "st-impl", "n-impl"), "u1")
+			if s := f.params.Get("id_token"); strings.Count(s, ".") == 2 {
+				tokens = append(tokens, harvested{"implicit:id_token", s})
+			}
+		}
+	}
+
 	// 3. advertised token-endpoint grants == grants not answered unsupported_grant_type
 	advertised := strList(doc["grant_types_supported"])
 	info["grants"] = advertised
 	outcomes := map[string]string{}
-	if tokenAvail {
+	if !full {
+		// judged on the first request
+	} else if tokenAvail {
 		var idToken, refreshToken, ccToken string
 		for _, g := range tokenGrants {
 			var r *vkit.Resp
@@ -679,7 +843,7 @@ func runProvider(pc *ProviderCase, res *vkit.Result) {
 	info["outcomes"] = outcomes
 
 	// tokens issued without the token endpoint (implicit flow), so that the issuer can be compared there too
-	if authAvail && !tokenAvail {
+	if full && authAvail && !tokenAvail {
 		q := vkit.AuthParams(web, redirectWeb, "id_token", "openid", "st-impl", "n-impl")
 		f := a.authFlow(q, "u1")
 		if s := f.params.Get("id_token"); strings.Count(s, ".") == 2 {
@@ -699,13 +863,16 @@ func runProvider(pc *ProviderCase, res *vkit.Result) {
 		}
 		seen++
 		if iss != docIssuer {
-			res.Fail("C19:issuer-differs-from-token-iss:"+tk.source, "discovery issuer %q but %s carries iss %q (Host %q, Forwarded %q, mode %s)", docIssuer, tk.source, iss, pc.Host, pc.Forwarded, pc.IssuerMode)
+			res.Fail("C19:issuer-differs-from-token-iss:"+tk.source, "request %d: discovery issuer %q but %s carries iss %q (Host %q, Forwarded %q, mode %s)", idx, docIssuer, tk.source, iss, view.Host, view.Forwarded, pc.IssuerMode)
 		}
 	}
 	if seen > 0 {
 		res.Label("iss:compared")
 	}
 	info["tokens_compared"] = seen
+	if !full {
+		return summary
+	}
 
 	// 5. every advertised PKCE method is honoured end to end
 	methods := strList(doc["code_challenge_methods_supported"])
@@ -806,6 +973,7 @@ func runProvider(pc *ProviderCase, res *vkit.Result) {
 		}
 		res.Label("discover:own-document+near-miss")
 	}
+	return summary
 }
 
 // ---- issuer cases ------------------------------------------------------------------------------
@@ -988,7 +1156,7 @@ func runDiscover(dc *DiscoverCase, res *vkit.Result) {
 
 // ---- properties ------------------------------------------------------------------------------
 
-const rule = "provider cases = router (op.Provider / LegacyServer) x 6 config flags x storage capabilities (cc, te, device, extras) x issuer strategy (static https/http issuers with ports, paths, trailing slash; from Host; from Forwarded) x Host header x Forwarded header(s) x per-endpoint shape (default / custom path / absolute URL below the issuer / absolute URL elsewhere / nil on LegacyServer) x signing key x client auth method; each is judged from its own discovery document: every advertised endpoint below the issuer is requested (404/405 = not routed), all flows then use the advertised addresses, each of the 6 token-endpoint grants is probed with a registered, authenticated, complete request (advertised <=> not unsupported_grant_type), iss of every JWT issued == document issuer, each advertised PKCE method accepts the right and refuses a wrong verifier, an advertised request-object support makes a signed object override the query, client.Discover accepts the document for its issuer and refuses a near miss; " +
+const rule = "provider cases = router (op.Provider / LegacyServer) x 6 config flags x storage capabilities (cc, te, device, extras) x issuer strategy (static https/http issuers with ports, paths, trailing slash; from Host; from Forwarded) x Host header x Forwarded header(s) x 1-3 further (Host, Forwarded) combinations sent to the same provider instance (same Host / other Forwarded, other Host / same Forwarded, both different, finally the first again; each document must name the issuer of its own request, its endpoints must be routed, fresh tokens must carry it; identical requests must get identical statements) x per-endpoint shape (default / custom path / absolute URL below the issuer / absolute URL elsewhere / nil on LegacyServer) x signing key x client auth method; each is judged from its own discovery document: every advertised endpoint below the issuer is requested (404/405 = not routed), all flows then use the advertised addresses, each of the 6 token-endpoint grants is probed with a registered, authenticated, complete request (advertised <=> not unsupported_grant_type), iss of every JWT issued == document issuer, each advertised PKCE method accepts the right and refuses a wrong verifier, an advertised request-object support makes a signed object override the query, client.Discover accepts the document for its issuer and refuses a near miss; " +
 	"issuer cases = strings assembled from a labelled grammar (empty / scheme / separator / userinfo / host / port / path / query / fragment) x insecure opt-in x strategy, verdict from the labels (excluded as grey: other schemes, userinfo, upper-case scheme, empty '?' or '#'); discover cases = asked issuer x relation of the served document's issuer (equal, 15 near misses, missing) x well-known override; " +
 	"non-trivial = provider configuration differing from the all-defaults one / issuer with a must-accept or must-reject verdict / document issuer differing from the asked one; distinct = configuration class (router, flags, capabilities, issuer, host, forwarded, endpoint shapes, alg, client auth) / issuer string x opt-in x strategy / (asked, served) pair"
 
@@ -1055,6 +1223,15 @@ func latticeCase(cell int, variant string) Case {
 		} else {
 			pc.Endpoints = map[string]EPShape{"device_authorization": {Kind: "path", Path: "/dev/auth"}}
 		}
+	}
+	first := View{Host: pc.Host, Forwarded: pc.Forwarded}
+	switch pc.IssuerMode {
+	case "host":
+		pc.More = []View{{Host: "other.example.org"}, {Host: "other.example.org", Forwarded: []string{"host=ignored.example.net"}}, first}
+	case "forwarded":
+		pc.More = []View{{Host: pc.Host, Forwarded: []string{"host=fwd2.example.net"}}, {Host: "internal-b:8080", Forwarded: []string{"host=fwd2.example.net"}}, first}
+	default:
+		pc.More = []View{first} // idempotence
 	}
 	return Case{Kind: "provider", P: pc}
 }
